@@ -71,6 +71,8 @@ type MRepo struct {
 	blobDeleted map[string]bool
 	// why a present manifest might be affected by a known class of defect (for signatures only)
 	orphans map[string]string
+	// subjects whose referrers response a collection may have dropped by policy although artifacts remain
+	respLost map[string]bool
 }
 
 type Model struct {
@@ -90,7 +92,7 @@ func newModel(k Knobs) *Model {
 func (m *Model) repo(name string) *MRepo {
 	r, ok := m.repos[name]
 	if !ok {
-		r = &MRepo{name: name, blobs: map[string]*MBlob{}, mans: map[string]*MMan{}, tags: map[string]string{}, blobDeleted: map[string]bool{}, orphans: map[string]string{}}
+		r = &MRepo{name: name, blobs: map[string]*MBlob{}, mans: map[string]*MMan{}, tags: map[string]string{}, blobDeleted: map[string]bool{}, orphans: map[string]string{}, respLost: map[string]bool{}}
 		m.repos[name] = r
 	}
 	return r
@@ -129,6 +131,9 @@ func (m *Model) clone() *Model {
 		}
 		for d, v := range r.orphans {
 			cr.orphans[d] = v
+		}
+		for d := range r.respLost {
+			cr.respLost[d] = true
 		}
 	}
 	for _, s := range m.sess {
@@ -274,7 +279,7 @@ func (m *Model) judgeManifestPut(repo, ref, ctype, qdigest string, body []byte, 
 			v.either = false
 			return v
 		}
-		if b.maybeGone {
+		if b.maybeGone || r.causeOf(d) != "" {
 			v.either = true
 		}
 	}
@@ -450,6 +455,41 @@ func (m *Model) collectionOpportunity(now time.Time) {
 	m.collections++
 	for _, r := range m.repos {
 		keep := m.mustKeep(r, now)
+		// the referrers policies drop a referrers *response* in situations in which the artifacts themselves remain
+		// (tagged, or untagged collection off): the listing of that subject is then lost for good, and untagged artifacts
+		// (which live only in the child list of the response) are orphaned. Design-level, recorded as a known family.
+		tagged := map[string]bool{}
+		for _, d := range r.tags {
+			tagged[d] = true
+		}
+		for ad, a := range r.mans {
+			s := a.view.subject
+			if s == "" {
+				continue
+			}
+			_, subjBlob := r.blobs[s]
+			subjKept := keep[s] == keepMan
+			w, dg := m.k.refWithSubj(), m.k.refDangling()
+			drop := false
+			switch {
+			case w && subjBlob:
+				drop = !subjKept
+			case !dg:
+				drop = false
+			case subjBlob:
+				drop = !subjKept
+			default:
+				drop = m.k.untagged()
+			}
+			if drop {
+				r.respLost[s] = true
+				if !tagged[ad] {
+					if _, ok := r.orphans[ad]; !ok {
+						r.orphans[ad] = "referrer whose referrers response was collected by policy"
+					}
+				}
+			}
+		}
 		for d, b := range r.blobs {
 			if keep[d] == 0 {
 				b.maybeGone = true
@@ -701,15 +741,39 @@ func (m *Model) shapeHash() uint64 {
 // causeOf names the known family of defect that may explain why d is affected: d itself, or a manifest that
 // retains d, was moved out of the index as a child / referrer and its parent was then deleted.
 func (r *MRepo) causeOf(d string) string {
-	if why := r.orphans[d]; why != "" {
+	roots := r.familyRoots()
+	if why := roots[d]; why != "" {
 		return why
 	}
-	for _, root := range sortedKeys(r.orphans) {
+	for _, root := range sortedKeys(roots) {
 		if r.reaches(root, d) {
-			return r.orphans[root]
+			return roots[root]
 		}
 	}
 	return ""
+}
+
+// familyRoots lists the manifests that belong to a known design-level family: recorded orphans, plus untagged
+// artifacts whose referrers response a collection may have dropped by policy.
+func (r *MRepo) familyRoots() map[string]string {
+	roots := map[string]string{}
+	for d, why := range r.orphans {
+		roots[d] = why
+	}
+	if len(r.respLost) > 0 {
+		tagged := map[string]bool{}
+		for _, d := range r.tags {
+			tagged[d] = true
+		}
+		for d, x := range r.mans {
+			if x.view.subject != "" && r.respLost[x.view.subject] && !tagged[d] {
+				if _, ok := roots[d]; !ok {
+					roots[d] = "referrer whose referrers response was collected by policy"
+				}
+			}
+		}
+	}
+	return roots
 }
 
 func (r *MRepo) reaches(root, d string) bool {
@@ -739,7 +803,7 @@ func (r *MRepo) reaches(root, d string) bool {
 
 // resyncOrphans stops demanding anything of content that hangs below an orphaned manifest.
 func (r *MRepo) resyncOrphans() {
-	for root := range r.orphans {
+	for root := range r.familyRoots() {
 		for d, b := range r.blobs {
 			if r.reaches(root, d) {
 				b.maybeGone = true
